@@ -28,9 +28,9 @@ packet — fact `wpInitValidates`; the decoder theorems hold for either value of
 * LQL nesting: the guard of commit 8131efe counts on the lexer's tokens since 6345cd4 (facts `lqlGuardKind = 2`, `lqlMaxNesting`):
   `answers_every_request`; `cex_guard_hole` remains as the statement about the byte-scan branch (repaired finding F25b) and the
   unguarded branch (F25);
-* admin statements: `SHOW PARTITIONS` with a negative OFFSET or LIMIT panics in `partition.Service.Partitions` — open finding
-  **F55** (`cex_show_partitions_negative`, `show_partitions_total_partial`); `C13_full` holds once it is refused
-  (`C13_holds_with_show_guard`).
+* admin statements: `SHOW PARTITIONS` refuses a negative OFFSET or LIMIT since commit c80057f (fact
+  `showPartitionsRejectsNegative`): `show_partitions_total`; `cex_show_partitions_negative` remains as the statement about the
+  unguarded arithmetic (repaired finding F55). No open finding: `C13_full` is a theorem (`C13_holds`).
 -/
 namespace Logrange.Props.C13
 open Go Logrange Logrange.Wire Logrange.Outcome
@@ -408,7 +408,7 @@ theorem show_partitions_total_partial (n : Nat) (hn : (n : Int) < 92233720368547
   · rfl
   · exact partitions_nonneg n hn _ _ (by omega) (by omega)
 
-/-- **Counterexample (open finding F55)**, evaluated by the kernel: `show partitions offset -1` (no partition needed:
+/-- **The unguarded arithmetic (the code before commit c80057f, repaired finding F55)**, evaluated by the kernel: `show partitions offset -1` (no partition needed:
 `parts[-1]`, index out of range) and, with at least one partition, `show partitions limit -1` (`make([]…, -1)`: makeslice: len
 out of range) and `offset -9223372036854775808` (the subtraction wraps); with a guard the same statements get an error. With no
 partition `limit -1` is answered (early return). -/
@@ -454,8 +454,8 @@ def C13_full : Prop :=
 
 /-- **Where C13 stands**: every clause but the last two is proved above unconditionally; the nesting clause through the token
 guard (`lqlGuardKind = 2`, in place: `nesting_guard_in_place`); the last one holds as soon as SHOW PARTITIONS refuses a negative
-OFFSET / LIMIT (`showPartitionsRejectsNegative`, `proposed-fixes/F55.diff`). On the current tree that fact is `false`:
-`cex_show_partitions_negative`, open finding F55. -/
+OFFSET / LIMIT (`showPartitionsRejectsNegative`, commit c80057f). Before that commit the fact was `false`:
+`cex_show_partitions_negative`, repaired finding F55. -/
 theorem C13_holds_with_guards (hk : Generated.C13.lqlGuardKind = 2) (hg : Generated.C13.showPartitionsRejectsNegative = true) :
     C13_full := by
   refine ⟨?_, fun s => (pos_total s).2, fun s => ⟨(escapeJson_terminates s).2, (escapeJson_terminates s).1⟩, ?_,
@@ -476,8 +476,25 @@ set_option maxRecDepth 100000 in
 example : Nesting.parseG Generated.C13.lqlGuardKind 3 3 holeText = .err ∧
     Nesting.parseG Generated.C13.lqlGuardKind 3 3 [40, 40, 40, 97, 61, 49, 41, 41, 41] = .ok 3 := by decide
 
-/-- on the current tree only the SHOW PARTITIONS guard is missing -/
+/-- on the tree before c80057f only the SHOW PARTITIONS guard was missing -/
 theorem C13_holds_with_show_guard (hg : Generated.C13.showPartitionsRejectsNegative = true) : C13_full :=
   C13_holds_with_guards nesting_guard_in_place.2.2 hg
+
+/-- the regenerated fact: a negative OFFSET or LIMIT of SHOW PARTITIONS is refused with an error (commit c80057f) -/
+theorem show_partitions_guard_in_place : Generated.C13.showPartitionsRejectsNegative = true := by decide
+
+/-- **Every SHOW PARTITIONS statement is answered** on the tree as it is now: any OFFSET and LIMIT the parser can deliver, any
+number of partitions — the positive statement that replaces the counterexample of F55. -/
+theorem show_partitions_total (n : Nat) (hn : (n : Int) < 9223372036854775808) (offset limit : Option Int) :
+    (ShowPartitions.showPartitionsNow n offset limit).isPanic = false :=
+  show_partitions_total_guarded show_partitions_guard_in_place n hn offset limit
+
+/-- regression for F55 on the current fact: the three witnesses get an error, an ordinary page is served -/
+example : ShowPartitions.showPartitionsNow 0 (some (-1)) none = .err ∧ ShowPartitions.showPartitionsNow 1 none (some (-1)) = .err ∧
+    ShowPartitions.showPartitionsNow 1 (some (-9223372036854775808)) none = .err ∧
+    ShowPartitions.showPartitionsNow 3 (some 1) (some 5) = .ok [1, 2] := by decide
+
+/-- **C13 holds at full strength** on the tree as it is now (no open finding). -/
+theorem C13_holds : C13_full := C13_holds_with_show_guard show_partitions_guard_in_place
 
 end Logrange.Props.C13
